@@ -954,6 +954,7 @@ fn dense_values<T: RefRing>(vals: &[i64]) -> Vec<T> {
     v
 }
 
+/// `elementary`: also all 2x2 blocks of left/right_elementary (4^4 per row/column pair)
 fn unary_mat<R>(ck: &Ck, d: &RMat<R::Ref>, scal: &[R::Ref], elementary: bool)
 where
     R: Ring + Bridge,
@@ -1013,9 +1014,6 @@ where
     let nd = d.neg();
     ck.mat("Mat::neg(ref)", &args, || mat_r(&-&a), &nd);
     ck.mat("Mat::neg(val)", &args, || mat_r(&-a.clone()), &nd);
-    if !elementary {
-        return;
-    }
     // elementary row / column operations
     for i in 0..m {
         for j in 0..m {
@@ -1120,6 +1118,9 @@ where
         }
     }
     // 2x2 blocks acting on a pair of distinct rows / columns
+    if !elementary {
+        return;
+    }
     let ns = scal.len();
     for code in 0..ns.pow(4) {
         let q: [&R::Ref; 4] = [&scal[code % ns], &scal[code / ns % ns], &scal[code / ns / ns % ns], &scal[code / ns / ns / ns % ns]];
